@@ -312,6 +312,10 @@ def other_observations(tier):
     for kind, flags, kw in (('svg', ['--no-classes'], {'svgclass': None, 'lineclass': None}), ('svg', ['--no-classes', '--dark', 'darkblue'], {'svgclass': None, 'lineclass': None, 'dark': 'darkblue'}),
                             ('svgz', [], {}), ('svgz', ['--scale', '3', '--dark', 'darkblue', '--no-namespace'], {'scale': 3, 'dark': 'darkblue', 'svgns': False}),
                             ('svgz', ['--no-classes', '--title', 'T'], {'svgclass': None, 'lineclass': None, 'title': 'T'}),
+                            ('png', ['--scale', '2.9999999'], {'scale': 2.9999999}), ('pbm', ['--scale', '3.0000001'], {'scale': 3.0000001}),
+                            ('svg', ['--scale', '2.9999999'], {'scale': 2.9999999}), ('png', ['--scale', '0.9999999'], {'scale': 0.9999999}),
+                            ('svg', ['--scale', '0.123456789'], {'scale': 0.123456789}), ('eps', ['--scale', '1234.5678'], {'scale': 1234.5678}),
+                            ('pdf', ['--scale', '2.0'], {'scale': 2}), ('svg', ['--scale', '10.0'], {'scale': 10}),
                             ('svg', ['--title', ''], {'title': ''}), ('svg', ['--desc', ''], {'desc': ''}), ('svg', ['--svgid', ''], {'svgid': ''}),
                             ('svg', ['--svgclass', ''], {'svgclass': ''}), ('svg', ['--lineclass', ''], {'lineclass': ''}), ('svg', ['--border', '0'], {'border': 0}),
                             ('png', ['--border', '0'], {'border': 0}), ('png', ['--dpi', '0'], {'dpi': 0}), ('txt', ['--border', '0'], {'border': 0}),
@@ -327,7 +331,7 @@ def other_observations(tier):
                 data, kind = gzip.decompress(data), 'svg'
             elif kind == 'svgz':
                 kind = 'svg'
-            got = digest(normalise(kind, data)) if ok else failure(ValueError(str(status)) if not tb else RuntimeError(str(status)))
+            got = digest(normalise(kind, data)) if ok else failure(ValueError(str(status)) if (not tb or str(status) == 'exception:ValueError') else RuntimeError(str(status)))
             try:
                 ref = digest(normalise(kind, save_stream(qr, kind, kw)))
             except Exception as e:  # noqa
